@@ -93,6 +93,23 @@ def s9(chk: Check, proj: Project, m, fc, fs) -> None:
             chk.ob("S9", f"util.template_tag:{f.name}:positional-name-guard-strict", m.loc(iff), ok,
                    f"`{norm(t)}` (strict) guards `{norm(idx[0])}`" if ok else
                    f"`{norm(t)}` lets the index reach the count: the first positional that overflows into *args is mapped to the *args parameter's own name and marks it used, so `{{% tag 1 2 args=3 %}}` raises 'multiple values' where Python binds kwargs={{'args': 3}}")
+            # the bound itself: in the signature-based validator it is computed from parameter kinds, and Python binds
+            # BOTH positional-only and positional-or-keyword parameters by position
+            if f is fs:
+                bound = t.comparators[0].id
+                kinds: Set[str] = set()
+                for st, v in assignments(f, bound):
+                    srcs = [e for e, pol in flatten_conj(path_conditions(st)) if pol] + ([v] if v is not None else [])
+                    for e in srcs:
+                        kinds |= {x.attr for x in ast.walk(e) if isinstance(x, ast.Attribute) and x.attr.isupper() and "Parameter" in norm(x.value)}
+                pos = {"POSITIONAL_ONLY", "POSITIONAL_OR_KEYWORD"}
+                if not (kinds & pos):
+                    chk.undecided("S9", f"util.template_tag:{f.name}:positional-count-covers-both-kinds", m.loc(iff), f"`{bound}` is not computed from inspect.Parameter kinds any more")
+                else:
+                    okk = pos <= kinds
+                    chk.ob("S9", f"util.template_tag:{f.name}:positional-count-covers-both-kinds", m.loc(assignments(f, bound)[-1][0]), okk,
+                           f"`{bound}` counts POSITIONAL_ONLY and POSITIONAL_OR_KEYWORD parameters" if okk else
+                           f"`{bound}` counts only {sorted(kinds & pos)} parameters: for a render without __code__ (callable object, so the signature-based validator runs) whose signature has the other positional kind - `render(a, /)` - the tag `{{% tag 1 %}}` is refused with 'takes 0 positional arguments' although the Python call binds a=1")
     chk.floor("S9", n, 1)
     # complement consistency in the fast path
     hit = 0
